@@ -31,8 +31,6 @@ def known_class(j, cat, text):
         return "KF-WAV-GSM-PAD"
     if f.major == 0x0F and cat in ("partition", "frames", "eof", "stale"):
         return "KF-XI-HEADER"
-    if f.major == 0x0B and f.codec in (0x12, 0x13, 0x20) and cat in ("stale", "partition"):
-        return "KF-W64-STALE-FRAMES"
     if f.major == 0x08 and cat == "snapshot":
         return "KF-VOC-UPDATE"
     if f.major == 0x08 and f.codec in (0x10, 0x11) and j.ch == 1 and cat in ("frames", "eof"):
@@ -41,16 +39,12 @@ def known_class(j, cat, text):
         return "KF-PVF-TINY-FILE"
     if f.major == 0x0E and j.sr < 10 and cat in ("frames", "roundtrip", "eof", "snapshot"):
         return "KF-PVF-SHORT-HEADER"
-    if f.major == 0x02 and j.sr >= 2 ** 30 and cat == "rate":
-        return "KF-AIFF-RATE-2POW30"
     if f.major in (0x06, 0x21) and j.sr >= 65536 and j.sr % 65536 == 0 and cat in ("reopen", "snapshot", "roundtrip", "frames", "eof"):
         return "KF-RATE16-WRAP"
     if f.major == 0x0A and j.sr >= 2 ** 31 - 64 and cat in ("reopen", "snapshot", "roundtrip", "frames", "eof"):
         return "KF-C10-ircam-rate"
     if f.major == 0x02 and f.codec in (0x40, 0x41, 0x42) and cat == "snapshot":
         return "KF-DWVW-BUFFERED"
-    if f.major == 0x05 and f.codec == 0x03 and 2048 % j.ch != 0 and cat in ("roundtrip", "partition", "snapshot"):
-        return "KF-PAF24-CHUNK"
     return None
 
 
@@ -118,6 +112,30 @@ def run_common(ctx, prop, modules, stride, l1_scripts, l1_gen=None):
     for f in crashes[:2]:
         found = True
         ctx.violation("%s-l1-crash-%s" % (prop.lower(), f.name), "# implementation died on an L1 history: %s\n--- script\n%s" % (f.text, HC.script_prefix(f.script, f.line)))
+    if corr and not found:
+        # failing-input search: the formats of the disagreeing scripts, with lengths beyond every staging buffer
+        import re as _re
+        words = []
+        for f in corr:
+            m = _re.search(r"fmt=([0-9a-fA-F]+)", f.script)
+            if m and int(m.group(1), 16) not in words:
+                words.append(int(m.group(1), 16))
+        for w in words[:3]:
+            for r in W.run_jobs(ctx, W.focused_jobs(ctx, w), updates=True):
+                j = r["job"]
+                for (cat, text, which, line) in r["problems"]:
+                    if cat not in CATS[prop] or not in_scope(prop, j, cat) or known_class(j, cat, text) or found:
+                        continue
+                    found = True
+                    script = {1: r["script1"], 2: r["script2"], 3: r.get("script3", "")}[which]
+                    if which == 2 and cat == "partition":
+                        script = r["script1"] + "# --- the same samples, split:\n" + r["script2"]
+                    ctx.violation("%s-%s-%s-search" % (prop.lower(), j.fmt.name, cat),
+                                  "# %s violated on the implementation's own transcript (found by the search started after the model/implementation correspondence broke on %s)\n"
+                                  "# format %s, %d channel(s), %d Hz, %d frames of %s\n# %s\n--- script\n%s"
+                                  % (prop, corr[0].name, j.fmt.name, j.ch, j.sr, j.n, j.ty, text, script if line is None else HC.script_prefix(script, line)))
+            if found:
+                break
     if corr and not found:
         f = corr[0]
         sl = f.script.strip().split("\n")
